@@ -773,5 +773,56 @@ def r9_seeds_never_evicted(a, tier):
     return seeds_never_evicted(a, 'C04.R9')
 
 
+def r10_observer_settings(a, tier):
+    import itertools
+
+    from ..minieval import Raised, Unsupported
+    from ..modelinterp import Bound, Hook, ModelInterp, Stub
+    rep = RuleReport(
+        'C04.R10',
+        'switching tracing on changes nothing a parse depends on: ParserConfig.__post_init__ (where settings are coupled: memoization '
+        'off implies left recursion off, namechars imply nameguard ...), interpreted over {memoization, left_recursion, nameguard, '
+        'ignorecase} x {trace, colorize} on and off, leaves every setting other than the tracing ones at the value it has with tracing off '
+        '- a coupling from `trace` to memoization would, through the memoization -> left_recursion coupling, make a left-recursive grammar '
+        'fail exactly when it is traced',
+        floor=16,
+    )
+    PC = 'tatsu.config.ParserConfig'
+    fn = a.ct.lookup(PC, '__post_init__')
+    if fn is None:
+        raise AnalysisError('C04.R10: ParserConfig.__post_init__ not found')
+    observers = ('trace', 'colorize')
+    observer_fields = {'trace', 'colorize', 'trace_length', 'trace_separator', 'trace_filename', 'tracer'}
+
+    def run(**settings):
+        base = dict(ignorecase=False, keywords=(), memoization=True, left_recursion=True, namechars='', nameguard=None, semantics=None, trace=False, colorize=False,
+                    trace_length=72, trace_separator=':', trace_filename=False, comments=None, eol_comments=None, comments_re=None, eol_comments_re=None,
+                    memoize_lookaheads=None, whitespace=None, parseinfo=False, start=None, name=None, perlinememos=8, prune_memos_on_cut=True)
+        base.update(settings)
+        me = Stub(PC, **base)
+        for h in ('_check_deprecations', '_compile_comments'):
+            me._attrs[h] = Hook(lambda *x, **k: None)
+        try:
+            ModelInterp(a, {'warnings': Hook(None, warn=Hook(lambda *x, **k: None))}).call_bound(Bound(me, fn), [], {})
+        except Raised as r:
+            return f'raises {r.cls_name}'
+        except Unsupported as e:
+            raise AnalysisError(f'C04.R10: cannot interpret ParserConfig.__post_init__: {e}') from e
+        return {k: v for k, v in me._attrs.items() if k not in observer_fields and not isinstance(v, Hook)}
+    for memo, lrec, ng, ic in itertools.product((True, False), (True, False), (None, True), (False, True)):
+        ref = run(memoization=memo, left_recursion=lrec, nameguard=ng, ignorecase=ic, keywords=('if',))
+        for obs in itertools.product((False, True), repeat=len(observers)):
+            if not any(obs):
+                continue
+            got = run(memoization=memo, left_recursion=lrec, nameguard=ng, ignorecase=ic, keywords=('if',), **dict(zip(observers, obs)))
+            diff = {k: (ref.get(k), got.get(k)) for k in set(ref) | set(got) if ref.get(k) != got.get(k)} if isinstance(ref, dict) and isinstance(got, dict) else {'outcome': (ref, got)}
+            on = [o for o, v in zip(observers, obs) if v]
+            rep.add({'memoization': memo, 'left_recursion': lrec, 'nameguard': ng, 'ignorecase': ic, 'switched_on': on, 'settings_that_change': {k: list(map(repr, v)) for k, v in diff.items()}})
+            if diff:
+                rep.fail(fn.qualname, f'observer-coupling:{"+".join(on)}:{sorted(diff)}', f'with {on} switched on (memoization={memo}, left_recursion={lrec}) ParserConfig ends up with '
+                         f'{ {k: v[1] for k, v in diff.items()} } instead of { {k: v[0] for k, v in diff.items()} }: the outcome of a parse depends on whether it is traced', fn.loc)
+    return rep
+
+
 RULES = [r1_key_derivation, r2_ownership, r3_observer_purity, r4_flag_confinement, r5_settings_gate_only_the_store, r_replay, r7_failure_memo, r8_key_identity,
-         r9_seeds_never_evicted]
+         r9_seeds_never_evicted, r10_observer_settings]
